@@ -135,7 +135,7 @@ NEEDS = {
  "C19-8": ("Channels.NewVoucherResult skips results whose payload is nil or IPLD null", "typed voucher result with a null payload"),
  "C19-2": ("NewVoucher restricted to a hand-built status list that omits ResponderFinalizingTransferFinished", "SendVoucher while the initiator is in ResponderFinalizingTransferFinished"),
 }
-NOT_CAUGHT={"C09-6":"the re-run of the cleanup entry function needs an event to arrive in the window between entering Cancelling/Failing/Completing and CleanupComplete, which only exists in the asynchronous go-statemachine queue (the synchronous model finishes the cleanup before the next event); the unchanged tree has the same re-entry for the events that are already FromAny().ToNoChange() (DataReceived, Disconnected, ...), so this window is declared outside the claim under C09"}
+NOT_CAUGHT={}  # every stored change is caught (C09-6 since the queue mode of the model group; its meta.json was edited by hand)
 os.makedirs(DST, exist_ok=True)
 n=0
 for key,(what,needs) in sorted(NEEDS.items()):
